@@ -12,6 +12,7 @@ from ..runtime import run_paths, current
 from ..harness import Inputs, decide, jsonable
 from . import reductions as R, cumulative as CU, rolling as RO, rowselect as RS, common
 from . import c01, c03, c04, c07, c08, c09, c13, c15, c16
+from . import assembly as ASM
 from .common import MergedRT
 
 PROP = "C19"
@@ -24,6 +25,12 @@ def cases(tier, seed):
         cs = [c for c in mod.cases("quick", seed) if not c.get("inductive") and c.get("kind") not in ("tmax", "ema", "strategy")]
         for c in cs[::step if len(cs) > 60 else max(1, step // 8)]:
             out.append({"src": tag, "case": c, "name": f"no input writes / no aliasing:{tag}:{c['name']}"})
+    # the public reduction path: the returned Series/frame shares no buffer with inputs or with what the grouping retains
+    asm = [c for c in ASM.cases(tier) if c["dtype"] == "float64"]
+    if tier == "quick":
+        asm = [c for c in asm if c["labels"] in (["a", "b"], ["b", "a"]) and (c["func"] in ("size", "sum", "count", "mean") or c.get("ncols") == 2)]
+    for c in asm:
+        out.append({"src": "ASM", "case": c, "name": f"result shares no buffer with inputs or retained state:{c['name']}"})
     return out
 
 
@@ -48,6 +55,12 @@ def _arrays(x, acc):
 def run_case(E, case):
     t0 = time.time()
     src, c = case["src"], case["case"]
+    if src == "ASM":
+        r = ASM.run_case(E, c, PROP, mode="alias")
+        for cand in r.get("candidates", []):
+            cand["case"] = {"src": "ASM", "case": c}
+        r.setdefault("witnesses", {})["public reduction path executed (alias mode)"] = True
+        return r
     mod = {"C01": c01, "C04": c04, "C08": c08, "C09": c09, "C15": c15, "C07": c07, "C13": c13, "C03": c03, "C16": c16}[src]
     # run the property's own harness and keep only what C19 is about
     r = mod.run_case(E, c)
@@ -75,6 +88,8 @@ def replay(case, conc, cand=None):
     import numpy as np
     import groupby_lib.groupby.numba as rnb
     src, c = case["src"], case["case"]
+    if src == "ASM":
+        return ASM.replay_alias(c, conc, cand)
     mod = {"C01": c01, "C04": c04, "C08": c08, "C09": c09, "C15": c15, "C07": c07, "C13": c13, "C03": c03, "C16": c16}[src]
     names = [n for n in dir(rnb) if n.startswith(("group_", "cum", "rolling_", "find_", "_find_")) and callable(getattr(rnb, n))]
     problems = []
